@@ -4,21 +4,22 @@ obligation.  This check re-runs the symbolic executions of the other properties'
 obligations (and the path-coverage obligations that make them meaningful)."""
 import importlib
 
-SOURCES = ['c01', 'c02', 'c07', 'c13', 'c14', 'c08', 'c11', 'c16']      # c02 includes the evaluator arms and the wildcard matcher
+SOURCES = ['c01', 'c02', 'c07', 'c13', 'c14', 'c08', 'c11', 'c16', 'c06', 'c15', 'c19']      # c02 includes the evaluator arms and the wildcard matcher; c06 the JSON / protobuf conversions; c19 the FFI and CLI wrappers
+THOROUGH_SOURCES = ['c04']                                                                      # the closure algorithms on symbolic graphs (minutes)
 
 
 def run(ctx):
     ctx.panic_only = True
     fams = []
-    for m in SOURCES:
+    for m in SOURCES + (THOROUGH_SOURCES if ctx.tier == 'thorough' else []):
         try:
             mod = importlib.import_module(f'.{m}', 'mir2smt.props')
         except ImportError:
             continue
         fams += [(f'{m.upper()}:{name}', fn) for name, fn in mod.families(ctx)]
     ctx.run_families(fams)
-    ctx.bounds += ['full input space of each encoded kernel under its stated precondition (see the evidence of C01/C02/C07/C08/C11/C13/C14/C16 for the preconditions)']
-    ctx.assumptions += ['only the kernels listed in functions_encoded; parsers, error rendering, JSON/protobuf/FFI entry points and deep-nesting limits - most of C20 - are NOT covered',
+    ctx.bounds += ['full input space of each encoded kernel under its stated precondition (see the evidence of C01/C02/C06/C07/C08/C11/C13/C14/C15/C16/C19 - thorough: also C04 - for the preconditions)']
+    ctx.assumptions += ['only the kernels listed in functions_encoded (core kernels, the AST <-> EST / PST / protobuf conversions, the batched-evaluation driver, the FFI and CLI wrapper functions with their callees as stubs); parsers, serde, error rendering and deep-nesting limits - most of C20 - are NOT covered',
                         'panics inside stubbed callees are not visible; modelled std functions panic exactly where std documents (unwrap/expect on None/Err, abs/rem_euclid overflow)']
-    return ctx.finish('Solver-decided panic-freedom of the cedar-policy-core kernels encoded by engine M (narrow slice of C20): for each kernel, the disjunction of the path conditions of all panicking paths '
+    return ctx.finish('Solver-decided panic-freedom of the kernels encoded by engine M - cedar-policy-core kernels, format conversions, FFI / CLI wrappers - (narrow slice of C20): for each kernel, the disjunction of the path conditions of all panicking paths '
                       '(MIR asserts, unwrap/expect, unreachable!, explicit panics) is unsatisfiable under the documented precondition, and the remaining paths cover the precondition.')
